@@ -254,6 +254,39 @@ def run(ctx):
         n = rng.randint(2, 3)
         scn, meta = make_scenario(rng, kind, n, rng.choice([None, 1, 2]) if kind == "Map" else None, nested=True)
         explore(ctx, scn, meta, ctx.pick(4, 25), ["c05n", v])
+    # three levels (Map > Map > Parallel) with distinct data at every position, and a fan-out that is entered again in the same execution
+    # (a Catcher whose Next is the fan-out itself): the join of one instance must never see the results of another
+    for v in range(ctx.pick(10, 60)):
+        i += 1
+        if not ctx.mine(i):
+            continue
+        rng = ctx.rng("deep", v)
+        names = F.Names()
+        if v % 2 == 0:
+            n_out, n_in = rng.randint(2, 3), rng.randint(2, 3)
+            inner_par = {"Type": "Parallel", "Branches": [F.chain([(names(), F.T(rng.choice(["wrap", "lat"])))]), F.chain([(names(), F.T("wrap")), (names(), F.P())])]}
+            inner = {"Type": "Map", "ItemsPath": "$.items", "ItemProcessor": F.chain([(names(), inner_par)])}
+            if rng.random() < 0.5:
+                inner["MaxConcurrency"] = rng.randint(1, n_in)
+            outer = {"Type": "Map", "ItemsPath": "$.items", "ItemProcessor": F.chain([(names(), F.P()), (names(), inner)]), "ResultPath": "$.out"}
+            if rng.random() < 0.5:
+                outer["MaxConcurrency"] = rng.randint(1, n_out)
+            items = [{"id": "o%d" % a, "i": a, "w": a % 2, "items": [{"id": "o%d.i%d" % (a, b), "i": b, "w": (a + b) % 3} for b in range(n_in)]} for a in range(n_out)]
+            scn = {"machines": {"m": {"asl": F.chain([("Fan", outer), ("After", F.P())])}}, "funcs": dict(FUNCS), "starts": [{"machine": "m", "name": "e0", "input": {"w": 0, "items": items}}]}
+            meta = dict(family="join-depth3", kind="Map", n=n_out, mc=outer.get("MaxConcurrency"), nested=True, end=False)
+            ctx.count("depth3_scenarios")
+        else:
+            n = 1         # (a single iteration / branch: with live siblings the handled failure would run into C06's listed finding instead)
+            proc = F.chain([(names(), F.T("once")), (names(), F.T("wrap"))])       # "once": fails the first time it sees a payload, succeeds afterwards
+            fan = {"Type": "Map", "ItemsPath": "$.items", "ItemProcessor": proc, "ResultPath": "$.out",
+                   "Catch": [{"ErrorEquals": ["States.ALL"], "ResultPath": "$.err", "Next": "Fan"}]} if rng.random() < 0.5 else \
+                  {"Type": "Parallel", "Branches": [F.chain([(names(), F.T("once")), (names(), F.T("wrap"))])], "ResultPath": "$.out",
+                   "Catch": [{"ErrorEquals": ["States.ALL"], "ResultPath": "$.err", "Next": "Fan"}]}
+            scn = {"machines": {"m": {"asl": F.chain([("Fan", fan), ("After", F.P())])}}, "funcs": dict(FUNCS, once=["flaky", ["Once.Err"]]),
+                   "starts": [{"machine": "m", "name": "e0", "input": {"w": 0, "items": make_items(n)}}]}
+            meta = dict(family="join-reentered", kind=fan["Type"], n=n, mc=None, nested=False, end=False)
+            ctx.count("reentered_fanout_scenarios")
+        explore(ctx, scn, meta, ctx.pick(5, 30), ["c05d", v])
     # exhaustive schedules: 2-3 single-task branches / items
     for j, (kind, n, mc) in enumerate([("Parallel", 2, None), ("Parallel", 3, None), ("Map", 2, None), ("Map", 3, None), ("Map", 3, 1), ("Map", 3, 2), ("Map", 2, 1)]):
         i += 1
